@@ -1,14 +1,16 @@
 (* Model.Envelope: dvid/serialize.go — SerializeData, SerializePrecompressedData,
    DeserializeData.  Third-party compressors are parameters (oracles); everything DVID
    itself does (format byte, checksum, LZ4 size prefix, shortcuts, error paths) is concrete. *)
-From DV Require Import Base.Prelude Base.Int Model.CRC Gen.Consts.
+From DV Require Import Base.Prelude Base.Int Model.CRC Gen.Consts Gen.Funcs.
 Local Open Scope N_scope.
 
-(* EncodeSerializationFormat / DecodeSerializationFormat *)
+(* EncodeSerializationFormat / DecodeSerializationFormat: the definitions are the Gallina
+   translations of the Go function bodies, regenerated from the source on every run
+   (Gen/Funcs.v), so an edited mask or shift changes these functions and re-opens the proofs. *)
 Definition enc_format (comp cks : N) : N :=
-  N.lor (N.shiftl (N.land comp 7) 5 mod 256) (N.shiftl (N.land cks 3) 3 mod 256).
-Definition dec_comp (f : N) : N := N.shiftr f 5.
-Definition dec_cks (f : N) : N := N.land (N.shiftr f 3) 3.
+  Z.to_N (f_EncodeSerializationFormat (Z.of_N comp) 0%Z (Z.of_N cks)).
+Definition dec_comp (f : N) : N := Z.to_N (fst (f_DecodeSerializationFormat (Z.of_N f))).
+Definition dec_cks (f : N) : N := Z.to_N (snd (f_DecodeSerializationFormat (Z.of_N f))).
 
 Record codecs := {
   (* compress: format -> level -> data -> compressed bytes (library call; may fail) *)
